@@ -585,6 +585,27 @@ def canon_flow(tree):
                     n += 1
                     changed = True
                     continue
+                if isinstance(st, ast.While) and isinstance(
+                        st.test, ast.Constant) and st.test.value is True \
+                        and not st.orelse and st.body and isinstance(
+                            st.body[0], ast.While) and isinstance(
+                                st.body[0].test, ast.Constant) and \
+                        st.body[0].test.value is True and not \
+                        st.body[0].orelse and isinstance(
+                            st.body[0].body[-1], ast.Break) and sum(
+                                1 for x in ast.walk(st.body[0])
+                                if isinstance(x, ast.Break)) == 1 and not any(
+                                    isinstance(x, (ast.For, ast.AsyncFor,
+                                                   ast.While))
+                                    for b_ in st.body[0].body
+                                    for x in ast.walk(b_)):
+                    # a retry loop at the head of a retry loop: its
+                    # `continue` starts the outer body over just the same
+                    inner = st.body[0]
+                    st.body[0:1] = inner.body[:-1]
+                    n += 1
+                    changed = True
+                    continue
                 if last and len(lst) > 1 and _is_bare_leave(st, ctx):
                     del lst[i]
                     n += 1
